@@ -75,7 +75,7 @@ def handle(run, results, build, what='entries differ from the oracle'):
         if not sats:
             continue
         cfg = res['cfg']
-        # replay the first few sat obligations of this configuration (one replay covers the configuration)
+        # one exact-rational replay per configuration; violations are keyed by obligation family (name up to '[')
         try:
             bad, info = concrete_replay(build, cfg, sats[0]['model'])
             if not bad:
@@ -84,12 +84,15 @@ def handle(run, results, build, what='entries differ from the oracle'):
         except Exception as e:
             run.harness_error('replay of %s crashed: %s: %s' % (res['group'], type(e).__name__, e))
             continue
-        if not bad:
-            run.harness_error('sat obligations of %s %s did not reproduce in the exact-rational replay' % (res['group'], cfg))
-            continue
-        key = '%s/%s' % (res['group'], cfg['variant'])
-        run.violation(key, ('%s m=%d n=%d: %d ' + what + ', e.g. %s impl=%.6g oracle=%.6g') % (
-            res['group'], cfg['m'], cfg['n'], len(bad), bad[0][0], bad[0][1], bad[0][2]),
-            {'cfg': cfg, 'inputs': info['values'], 'differing_entries': bad[:10], 'n_sat': len(sats)})
-
-
+        fams = {}
+        for sres in sats:
+            fams.setdefault(sres['name'].split('[')[0], []).append(sres['name'])
+        for fam, names in sorted(fams.items()):
+            fbad = [b for b in bad if b[0].split('[')[0] == fam]
+            if not fbad:
+                run.harness_error('sat obligations %s of %s %s did not reproduce in the exact-rational replay' % (fam, res['group'], cfg))
+                continue
+            key = '%s/%s/%s' % (res['group'], cfg['variant'], fam)
+            run.violation(key, ('%s m=%d n=%d: %d ' + what + ', e.g. %s impl=%.6g oracle=%.6g') % (
+                res['group'], cfg['m'], cfg['n'], len(fbad), fbad[0][0], fbad[0][1], fbad[0][2]),
+                {'cfg': cfg, 'inputs': info['values'], 'differing_entries': fbad[:10], 'n_sat': len(names)})
